@@ -127,9 +127,11 @@ fn build(head: &Intent, pre: &[Intent], events: &[Intent]) -> SplitPair {
             ("3", "2") => vec![fmt("3", "1"), fmt("1", "2")], ("2", "3") => vec![fmt("1", "3"), fmt("2", "1")], ("4", "3") => vec![fmt("4", "1"), fmt("1", "3")], ("5", "2") => vec![fmt("5", "1"), fmt("1", "2")], ("3", "1") => vec![fmt("3", "2"), fmt("2", "1")], ("2", "1") => vec![fmt("4", "1"), fmt("1", "2")], _ => vec![ratio.clone()] }
     } else { vec![ratio.clone()] };
     let mut split_rows: Vec<HRow> = vec![];
+    // a split row may carry a trade date before its settlement date; the settlement date is when it takes effect
+    let split_td = split_date - Duration::days(wpick(head.settle, &[(3u32, 0i64), (1, 1), (1, 2), (1, 3)]));
     for ratio in &chain {
-        if per_affiliate { for af in &ids { let mut s = HRow::new(sec, split_date, split_date, Act::Split); s.split = ratio.clone(); s.af = if af.is_empty() { "Default".into() } else { af.clone() }; split_rows.push(s); } }
-        else { let mut s = HRow::new(sec, split_date, split_date, Act::Split); s.split = ratio.clone(); split_rows.push(s); }
+        if per_affiliate { for af in &ids { let mut s = HRow::new(sec, split_td, split_date, Act::Split); s.split = ratio.clone(); s.af = if af.is_empty() { "Default".into() } else { af.clone() }; split_rows.push(s); } }
+        else { let mut s = HRow::new(sec, split_td, split_date, Act::Split); s.split = ratio.clone(); split_rows.push(s); }
     }
     let mut with_split: Vec<HRow> = vec![];
     let mut inserted = false;
@@ -218,6 +220,7 @@ fn check(c: &SplitPair, obs: &mut Obs) -> Verdict {
     if first_row.values().any(|d| *d > sd) { obs.nt("an-affiliate-holds-nothing-at-the-split"); }
     obs.class(format!("ratio:{}-for-{}", c.a, c.b));
     obs.class(if c.per_affiliate { "per-affiliate-rows" } else { "one-row-for-all" });
+    if c.with_split.iter().any(|r| r.act == Act::Split && r.td != r.sd) { obs.class("split-traded-before-it-settles"); }
     if c.opening.is_some() { obs.class("opening-position"); if !c.base.iter().any(|r| affiliate_id(&r.af).0 == "default") { obs.nt("opening-holder-without-rows-of-its-own"); } }
     { let mut per: BTreeMap<String, usize> = BTreeMap::new(); for r in c.with_split.iter().filter(|r| r.act == Act::Split) { *per.entry(r.af.clone()).or_insert(0) += 1; } if per.values().any(|n| *n >= 2) { obs.class("entered-as-two-successive-splits"); } }
     Verdict::Pass
